@@ -155,6 +155,8 @@ func (w *World) bindNames() {
 		"base":         "github.com/pb33f/libopenapi/datamodel/high/base",
 		"v3":           "github.com/pb33f/libopenapi/datamodel/high/v3",
 		"yaml":         "go.yaml.in/yaml/v4",
+		"json":         "encoding/json",
+		"context":      "context",
 	}
 	for name, path := range alias {
 		if p, ok := w.ByPath[path]; ok && p.Types != nil {
